@@ -185,7 +185,7 @@ pub fn one_case(r: &mut Rng, silent: &Arc<Mutex<Option<String>>>, debug: bool) -
     let mut events = String::new();
     let mut jsched = String::new();
     let mut owed = false;
-    let mut stored_head = false;
+    let poll_ends: Vec<usize> = recs.iter().map(|r| r.end).collect();
     let mut lost = false;
     let mut oracle: Option<String> = None;
     let mut first_pstate_step = vec![true; n_wakers + 1];
@@ -196,6 +196,11 @@ pub fn one_case(r: &mut Rng, silent: &Arc<Mutex<Option<String>>>, debug: bool) -
         if k > 0 {
             events.push_str("; ");
             jsched.push(',');
+        }
+        // A poll returned exactly when the execution log had this many entries (read by the poller
+        // thread right after `Ring::poll` came back): what was owed is served by that return.
+        if poll_ends.contains(&k) {
+            owed = false;
         }
         let interrupted = *t == 0 && (*p == 997 || intr_at.contains(&k));
         let _ = write!(jsched, "\"T{t}@{p}{}\"", if interrupted { ":EINTR" } else { "" });
@@ -216,13 +221,6 @@ pub fn one_case(r: &mut Rng, silent: &Arc<Mutex<Option<String>>>, debug: bool) -
             }
         } else if *t == 0 {
             events.push('P');
-            if *p == 6 {
-                stored_head = true;
-            } else if *p == 3 && stored_head {
-                // wake_blocked_futures at the end of the poll: the poll returns after this step
-                stored_head = false;
-                owed = false;
-            }
         } else {
             let _ = write!(events, "W {}%nat", t - 1);
             if *p == 8 {
